@@ -1,12 +1,14 @@
 package main
 
 import (
+	"regexp"
 	"encoding/json"
 	"fmt"
 	"strings"
 
 	"github.com/opsidian/parsley/ast"
 	"github.com/opsidian/parsley/data"
+	"github.com/opsidian/parsley/parser"
 	"github.com/opsidian/parsley/parsley"
 	"github.com/opsidian/parsley/text"
 	sim "github.com/opsidian/parsley/zzsimrt"
@@ -249,7 +251,7 @@ func (*c03Prop) Gen(r *Rand, pl *Plan) Case {
 		}
 		if r.Chance(1, 4) {
 			// Sentence root: whole-input matching with its early exit on the first result reaching EOF
-			c.G.Nodes = append(c.G.Nodes, GNode{Op: "sentence", Kids: []int{c.G.Root}})
+			c.G.Nodes = append(c.G.Nodes, GNode{Op: "sentence", Kids: []int{c.G.Root}, Memo: r.Chance(1, 3)})
 			c.G.Root = len(c.G.Nodes) - 1
 		}
 		c.Input = c.G.genInput(r, alphabet, maxLen)
@@ -464,6 +466,7 @@ func c03ParseOnce(g *Grammar, input string, prefix int, memo bool, e *c03Event, 
 
 var c03Ctx *ctxSource // set by c03Judge for the duration of one case
 var c03ViaParse bool
+var c03PosRe = regexp.MustCompile(` at [^ ]*:[0-9]+:[0-9]+$`)
 
 func c03ParseOnceOpt(g *Grammar, input string, prefix int, memo, refMemo bool, e *c03Event, shim bool, long bool, keep **c03Built) (o c03Obs) {
 	defer func() {
@@ -503,9 +506,24 @@ func c03ParseOnceOpt(g *Grammar, input string, prefix int, memo, refMemo bool, e
 	}
 	parse := func() (parsley.Node, string) {
 		if c03ViaParse && e.Kind != "other" {
-			n, err := parsley.Parse(ctx, b.Root)
+			// The error parsley.Parse returns is the root parser's error or - when that lies
+			// further - the context's furthest error, whose POSITION the property fixes but whose
+			// message it does not (the last error recorded at that position wins, and a cache
+			// hit records nothing). So: the root parser's own error through a pass-through
+			// recorder, plus the position parsley.Parse reports.
+			var rootErr parsley.Error
+			rec := parser.Func(func(ctx *parsley.Context, lrc data.IntMap, pos parsley.Pos) (parsley.Node, data.IntSet, parsley.Error) {
+				n, cp, err := b.Root.Parse(ctx, lrc, pos)
+				rootErr = err
+				return n, cp, err
+			})
+			n, err := parsley.Parse(ctx, rec)
 			if err != nil {
-				return n, err.Error()
+				where := "no position"
+				if m := c03PosRe.FindString(err.Error()); m != "" {
+					where = m
+				}
+				return n, renderErr(rootErr) + " / parsley.Parse error" + where
 			}
 			return n, "-"
 		}
